@@ -14,7 +14,7 @@
    the step is a step of the specification), so one rejected step does not
    stop the validation of the rest of the trace.  TLC prints one line per
    rejected step; the POSTCONDITION proves every event was consumed. *)
-EXTENDS BDDContracts, Json, IOUtils
+EXTENDS Expr, Json, IOUtils
 
 Traces == ndJsonDeserialize(IOEnv.TRACE_FILE)
 VARIABLES tid, l
@@ -123,6 +123,9 @@ OpClauses(e, s, t) ==
     [] e.op = "pick_iter" ->
          Bool2Set(PickIterC(s, a.u, SeqSet(a.care), r), "sat.pick.cover")
          \cup (IF a.care_default THEN Bool2Set(PickIterDefaultC(s, a.u, r), "sat.pick.default") ELSE {})
+    [] e.op = "add_expr" ->        \* a formula given as tokens: the result means what the grammar of Expr says
+         IF ~ParsedAll(a.tokens) THEN {"trace.unknown_op"}
+         ELSE Bool2Set(ResultIs(t, r, Meaning(s, Parse(a.tokens).ast)), "expr.meaning")
     [] e.op = "to_expr_rt" ->      \* add_expr(to_expr(u)) is u again
          Bool2Set(r = a.u /\ IsRef(t, r) /\ Den(t, r) = Den(s, a.u), "expr.roundtrip")
     [] e.op = "descendants" ->
@@ -199,8 +202,25 @@ NextView(e, base) ==
   IF e.exc = "" /\ e.pre >= 1 /\ Ev(e.pre).exc # "" /\ "dyn" \notin DOMAIN e /\ base # {}
   THEN {"exc.next"} ELSE {}
 
+(* C08: every LIVE Function object (identified by its slot in the driver, i.e.
+   by object identity) still points to the node it pointed to before the call.
+   e.handles / e.handles_pre: sequences of <<slot, signed node>>. *)
+HandleClauses(e) ==
+  IF "handles" \notin DOMAIN e THEN {}
+  ELSE IF \A i \in DOMAIN e.handles_pre : \A j \in DOMAIN e.handles :
+             e.handles_pre[i][1] = e.handles[j][1] => e.handles_pre[i][2] = e.handles[j][2]
+       THEN {} ELSE {"auto.handle_changed"}
+
+(* C14: add_var(name, level) with a level BEYOND the next bottom level, for a
+   new name, is accepted by the code and leaves levels that are not 0..n-1
+   (the terminal sits at level n, the variable below it).  Named on its own:
+   the post-state is not a well-formed manager record any more. *)
+GapLevel(e, s0) ==
+  /\ e.op = "add_var" /\ e.exc = "" /\ AllWellFormed(s0)
+  /\ e.a.level > Len(s0.order) /\ e.a.name \notin Declared(s0)
 Verdict0(e, s0, t0) ==
-  IF ~(AllWellFormed(t0) /\ AllWellFormed(s0))
+  IF GapLevel(e, s0) THEN {"decl.gap_level_accepted"}
+  ELSE IF ~(AllWellFormed(t0) /\ AllWellFormed(s0))
   THEN {"canon.malformed"} \cup StructNoDen(t0)
        \cup (IF e.exc = "" THEN {"op." \o e.op} ELSE {"exc.canonical"})
        \cup (IF "dyn" \in DOMAIN e THEN {"dyn.result"} ELSE {})
@@ -209,6 +229,7 @@ Verdict0(e, s0, t0) ==
            base == (IF e.op = "shutdown" THEN {} ELSE Struct(t))
                    \cup (IF FrameOK(s, t) THEN {} ELSE {FrameName(e)})
                    \cup (IF "views" \in DOMAIN e /\ ~ViewsOK(e, t) THEN {"decl.views"} ELSE {})
+                   \cup HandleClauses(e)
                    \cup (IF "dyn" \in DOMAIN e THEN DynClauses(e, t) ELSE {})
                    \cup (IF "dynnat" \in DOMAIN e    \* natural triggering: stays enabled, no signal
                         THEN (IF t.lastlen = Off /\ s.lastlen # Off /\ e.op # "other" THEN {"dyn.not_rearmed"} ELSE {})
